@@ -46,6 +46,7 @@ func (vc *VC) reset() {
 	vc.nowTerms = nil
 	vc.callSyms = map[string][]Term{}
 	vc.callArgs = map[string][]cval{}
+	vc.callCount = map[string]int{}
 	vc.callSymTypes = map[string][]CT{}
 	vc.ifaceUsed = map[string]types.Type{}
 	vc.frameAddrs = nil
@@ -71,6 +72,16 @@ func (vc *VC) wf(st *State, v Term, t types.Type) {
 	vc.older(st, v, sort)
 	if sort == "Val" && !isTypeParam(t) {
 		vc.sc.Assume(st.reach, Or(Eq(v, "nilval"), sx("vnn", v)))
+		if n, ok := types.Unalias(t).(*types.Named); ok && isModuleType(t) {
+			if it, isI := n.Underlying().(*types.Interface); isI && it.NumMethods() > 0 {
+				// a non-nil value of static interface type I implements I
+				vc.sc.Assume(st.reach, Or(Eq(v, "nilval"), vc.implementsPred(v, t)))
+			}
+		}
+	}
+	if sort == "Slice" {
+		// slice storage lives in array objects
+		vc.sc.Assume(st.reach, Ite(Eq(sx("s-ptr", v), "nilref"), Eq(sx("s-len", v), "0"), Eq(sx("okind", sx("root", sx("s-ptr", v))), "1")))
 	}
 	if sort == "Slice" && isByteSlice(t) {
 		vc.sc.Assume(st.reach, Eq(sx("s-len", v), sx("str.len", sx("bstr", v))))
@@ -107,7 +118,7 @@ func (vc *VC) generateOnce() {
 		if et, ok := typesPointerElem(p.Type()); ok {
 			if _, isStruct := structOf(et); isStruct {
 				// pointer parameters denote struct objects (or fields of them), not slice elements
-				vc.sc.Axiom(Eq(sx("okind", sx("root", name)), "0"))
+				vc.sc.Axiom(Or(Eq(name, "nilref"), Eq(sx("okind", sx("root", name)), "0")))
 				vc.Assumed["pointer-to-struct parameters do not point into slice backing arrays"] = true
 			}
 		}
